@@ -32,7 +32,7 @@ CHECKS = {
    tech="bounded-exhaustive enumeration of inputs x segmentations on the real codec/serialiser vs RFC 792/4443/1071 reference"),
  "C14": dict(cat="model_checking",
    text="Every activity pattern over a horizon of 8 (quick) / 10 (thorough) steps of T/4+1ms (and T/2+1ms, and the exact grid T/4) - per step: idle / left transfers / right transfers / both / toggle back-pressure - executed on the production DuplexPipe under tokio's paused clock; oracle in virtual time: an idle-timer close happens only >= T after the last transfer, and a tunnel idle for 2T (+2 steps of timer granularity) is closed; endpoints released on close.",
-   note="Virtual time replaces real time (exact-grid equality is an artefact and only the safety half is checked there). Establishment / TLS-handshake timeouts are a separate sub-check reported in the evidence.",
+   note="Virtual time replaces real time (exact-grid equality is an artefact and only the safety half is checked there). Establishment timeout (black-hole connect, virtual clock at T-1ms / T+1ms, 502/302, gauge and tasks released) and TLS-handshake timeout (real Core::listen on loopback, ClientHello stalled after k bytes) are scenario sub-checks reported in the evidence.",
    tech="exhaustive enumeration of bounded activity histories on the real pipe under a controlled virtual clock"),
  "C10": dict(cat="exploration",
    text="CONNECT x 14 authority shapes (reserved names, look-alikes, literals, names with/without port) x 12 outcomes of the outbound attempt (connected, ECONNREFUSED, ENETUNREACH, EHOSTUNREACH, ETIMEDOUT, never completes + virtual clock past the establishment timeout, policy loopback / non-routable, resolver failure, only-IPv6 with IPv6 unavailable, EMFILE, bad credentials) x {HTTP/1.1, HTTP/2} x {client waits, client closes}, plus GET/POST/OPTIONS/HEAD on reserved authorities, through the real accept path with the real DirectForwarder; everything the endpoint writes on the stream is parsed: exactly one final response with the documented status / X-Warning / X-Adguard-Vpn-Error, reserved authorities never reach the resolver/connector, session released when the client goes away.",
@@ -46,6 +46,10 @@ CHECKS = {
    text="Explicit-state breadth-first search over operation histories (depth 6 quick / 9 thorough) of {client datagram on 4 flows incl. a port-53 flow, peer reply, late reply on an expired flow's socket, clock step T/4+1ms, datagram to an unconnectable destination, burst to a closed port} on the real udp_pipe::DuplexPipe + real direct-forwarder multiplexer with real loopback UDP peers under a paused clock. After every operation: each peer received exactly the datagrams addressed to it, distinct flows use distinct sockets, each reply reaches the client labelled (flow destination -> flow source), outbound_udp_sockets equals the live flows of a reference model (expiry after T, DNS flows closed when answered), and the multiplexer is still running.",
    note="States merged on (reference-model state incl. how each flow was last refreshed, gauge). The SOCKS5 UDP relay is not driven here. Loopback delivery is synchronous; 120 scheduler turns count as quiescence.",
    tech="explicit-state model checking: BFS over operation histories, every transition re-executed on the real implementation, invariant + reference-model comparison in every state"),
+ "C19": dict(cat="model_checking",
+   text="Every complete interleaving (plain DFS over 'which enabled task runs next', no partial-order reduction) of participants {register handler+guard | wait | finish}, early-exit participants, submit (once or twice) and completion (lock held across the await as endpoint/src/main.rs does) for 2 (quick) / up to 3+1 (thorough) participants on the real Shutdown through the crate's doors, on the harness's own single-threaded executor. Oracle: every participant registered before the submission gets Ok from wait(); completion() returns only when no issued guard is alive; no schedule ends with completion or a participant pending. Plus wind-down on the wire through the real accept path: HTTP/1.1 session closed, HTTP/2 session ends gracefully, session task ends, completion() returns.",
+   note="Thread-level atomicity of std::sync::Mutex and tokio's broadcast/mpsc is trusted (each API call is one protected operation); worker-thread exhaustion by tasks blocked on the mutex is not modelled; QUIC close not driven.",
+   tech="stateless model checking: exhaustive schedule enumeration of the real Shutdown under a harness-owned executor"),
 }
 NOT_YET = "check not built yet in this round (planned, see DESIGN.md section 3)"
 
